@@ -11,10 +11,11 @@ EXTENDS Globs, SequencesExt
 
 Ids(reg) == [k \in 1..Len(reg) |-> reg[k].id]
 
-RECURSIVE Dedup(_)
-Dedup(s) == IF s = <<>> THEN <<>>
-            ELSE LET r == Dedup(Front(s)) IN
-                 IF \E k \in 1..Len(r) : r[k] = Last(s) THEN r ELSE Append(r, Last(s))
+\* keep the first occurrence of every element, in order
+Dedup(s) ==
+  LET keep == {i \in 1..Len(s) : \A j \in 1..(i - 1) : s[j] # s[i]}
+      idx  == SetToSortSeq(keep, LAMBDA a, b : a < b)
+  IN  [k \in 1..Len(idx) |-> s[idx[k]]]
 
 \* a pattern with `*` is a wildcard (whole-id match); anything else names one id
 Hit(pat, id) == IF HasStar(pat) THEN StarMatch(pat, id) ELSE pat = id
